@@ -1,7 +1,69 @@
-(* family 14: stub, to be filled *)
+(* family 14: CFDP File Data PDU. *)
 From Coq Require Import ZArith List Bool.
-From SP Require Import Base.Result Base.Bytes Run.Marshal.
+From SP Require Import Base.Result Base.Bytes Run.Marshal Model.PduHeader Run.DispHdr
+  Model.FileData Spec.PduHeaderSpec Spec.FileDataSpec.
 Import ListNotations.
 Open Scope Z_scope.
 
-Definition run_filedata (op : Z) (a : args) : args := [[1; 97]].
+(* segment metadata on a case line: [0] = None, 1 :: state :: metadata octets = Some *)
+Definition meta_of_args (l : list Z) : option SegMeta :=
+  match l with
+  | 1 :: st :: md => Some {| sm_state := st; sm_data := md |}
+  | _ => None
+  end.
+Definition meta_enc (m : option SegMeta) : list Z :=
+  match m with None => [0] | Some s => 1 :: sm_state s :: sm_data s end.
+
+(* a PDU on a case line: ids, flags (as for family 12), [offset], file data, metadata *)
+Definition params_of_args (off data meta : list Z) : FdParams :=
+  {| fp_data := data; fp_offset := nth 0 off 0; fp_meta := meta_of_args meta |}.
+
+Definition fd_of_args (a : args) : res (FileDataPdu * PduConfig) :=
+  do c <- conf_of_args (lst 0 a) (lst 1 a);
+  fd_new c (params_of_args (lst 2 a) (lst 3 a) (lst 4 a)).
+
+Definition fd_fields (p : FileDataPdu) : args :=
+  hdr_fields (fd_hdr p) ++
+  [[fp_offset (fd_params p)]; fp_data (fd_params p); meta_enc (fp_meta (fd_params p))].
+
+Definition pack_res (r : res bytes) : list Z :=
+  match r with Ok b => 0 :: b | Err e => [1; err_code e] end.
+
+(* history of setter calls: each remaining argument list is
+   0 :: data (file_data setter) | [1] (segment_metadata = None) | 2 :: state :: metadata *)
+Fixpoint fd_apply (p : FileDataPdu) (ops : list (list Z)) : res FileDataPdu :=
+  match ops with
+  | [] => Ok p
+  | (0 :: d) :: r => do p' <- fd_set_data p d; fd_apply p' r
+  | (1 :: _) :: r => do p' <- fd_set_meta p None; fd_apply p' r
+  | (2 :: st :: md) :: r => do p' <- fd_set_meta p (Some {| sm_state := st; sm_data := md |}); fd_apply p' r
+  | _ :: r => fd_apply p r
+  end.
+
+Definition run_filedata (op : Z) (a : args) : args :=
+  match op with
+  (* FileDataPdu(conf, params): fields, then the caller's PduConfig afterwards *)
+  | 1400 => ret (fun r => fd_fields (fst r) ++ [conf_ids (snd r); conf_flags (snd r)]) (fd_of_args a)
+  (* .pack() *)
+  | 1401 => ret (fun b => [b]) (do r <- fd_of_args a; fd_pack (fst r))
+  (* FileDataPdu.unpack(data) *)
+  | 1402 => ret fd_fields (fd_unpack (lst 0 a))
+  (* FileDataPdu.unpack(data).pack() *)
+  | 1403 => ret (fun b => [b]) (do p <- fd_unpack (lst 0 a); fd_pack p)
+  (* p = FileDataPdu(...); p2 = unpack(p.pack() ++ suffix): [p2 == p], fields of p2, p2.pack() *)
+  | 1404 => ret (fun r => r)
+              (do r <- fd_of_args a;
+               do b <- fd_pack (fst r);
+               do p2 <- fd_unpack (b ++ lst 5 a);
+               Ok ([b2z (fd_eqb p2 (fst r))] :: fd_fields p2 ++ [pack_res (fd_pack p2)]))
+  (* get_max_file_seg_len_for_max_packet_len_and_pdu_cfg(conf, max_packet_len, metadata) *)
+  | 1405 => ret (fun r => [[r]])
+              (do c <- conf_of_args (lst 0 a) (lst 1 a);
+               get_max_file_seg_len c (int 2 0 a) (meta_of_args (lst 3 a)))
+  (* constructor, then a history of setter calls: fields, packet_len, pack, pack again *)
+  | 1406 => ret (fun p => fd_fields p ++ [[fd_packet_len p]; pack_res (fd_pack p); pack_res (fd_pack p)])
+              (do r <- fd_of_args a; fd_apply (fst r) (skipn 5 a))
+  (* Spec side (independent oracle): layout of (conf fields, params) *)
+  | 1450 => [[0]; fd_layout (hdr_conf_raw (lst 0 a) (lst 1 a)) (params_of_args (lst 2 a) (lst 3 a) (lst 4 a))]
+  | _ => [[1; 97]]
+  end.
